@@ -91,3 +91,41 @@ pub fn evaluate_gate_constraints<F: RichField + Extendable<D>, const D: usize>(
 ) -> Vec<F::Extension> {
     crate::plonk::vanishing_poly::evaluate_gate_constraints::<F, D>(common_data, vars)
 }
+
+/// `util::partial_products::check_partial_products`
+pub fn check_partial_products<F: crate::field::types::Field>(
+    numerators: &[F],
+    denominators: &[F],
+    partials: &[F],
+    z_x: F,
+    z_gx: F,
+    max_degree: usize,
+) -> Vec<F> {
+    crate::util::partial_products::check_partial_products(
+        numerators,
+        denominators,
+        partials,
+        z_x,
+        z_gx,
+        max_degree,
+    )
+}
+
+/// `plonk::vanishing_poly::check_lookup_constraints`
+pub fn check_lookup_constraints<F: RichField + Extendable<D>, const D: usize>(
+    common_data: &CommonCircuitData<F, D>,
+    vars: EvaluationVars<F, D>,
+    local_lookup_zs: &[F::Extension],
+    next_lookup_zs: &[F::Extension],
+    lookup_selectors: &[F::Extension],
+    deltas: &[F; 4],
+) -> Vec<F::Extension> {
+    crate::plonk::vanishing_poly::check_lookup_constraints::<F, D>(
+        common_data,
+        vars,
+        local_lookup_zs,
+        next_lookup_zs,
+        lookup_selectors,
+        deltas,
+    )
+}
